@@ -127,7 +127,9 @@ def classify(F, f, l):
             if not err_t and len(sw['targets']) == 1 and int(sw['targets'][0][0]) == 0:
                 err_t = [sw['otherwise']]
             for et in err_t:
-                reach = f.reachable(et)
+                # value-aware reachability: an `Err(..)` built in the arm (e.g. the `return Err(e.into())` of a virtually
+                # inlined helper) makes the caller's following `?` take its Break edge only
+                reach = paths.feasible_reach(f, b, avoid=[x for x in f.succ(b) if x != et])
                 goods = [rb for rb, kk, tt in paths.ret_assigns(f) if kk in ('ok',) and rb in reach]
                 # a loop header reached again from the Err arm (e.g. `continue`) also swallows the error
                 back = any(b in f.reachable(s) for s in [et]) and f.in_cycle(b)
